@@ -167,7 +167,9 @@ def main():
 
 
 def write_evidence(pid, tier, seed, results, wall, note=None, mod=None, work=None, violations=0, nrep=0, known=(), info=None):
-    os.makedirs(os.path.join(VERIF, 'evidence'), exist_ok=True)
+    # evidence describes runs against /repo itself; a run on a patched copy (VERIF_REPO, seeded changes) records elsewhere
+    evdir = os.path.join(VERIF, 'evidence') if os.path.abspath(engine.REPO) == '/repo' else os.path.join(VERIF, '.work', 'evidence-copy')
+    os.makedirs(evdir, exist_ok=True)
     fns = set()
     summ = set()
     for r in results:
@@ -216,7 +218,7 @@ def write_evidence(pid, tier, seed, results, wall, note=None, mod=None, work=Non
         'wall_s': round(wall, 2),
         'violations': violations,
     }
-    with open(os.path.join(VERIF, 'evidence', pid + '.json'), 'w') as f:
+    with open(os.path.join(evdir, pid + '.json'), 'w') as f:
         json.dump(ev, f, indent=1, default=str)
     return ev
 
